@@ -247,3 +247,202 @@ GROUPS.append(Group('S1', 'rgb() / color256() helpers and their fg_/bg_/ul_/dul_
                     'clamping, 24-bit split, component selects the introducer, underline forms switch underline on',
                     ['C14', 'C15'], 'U', ['_AnsiControlFn.rgb', '_AnsiControlFn.color256', 'AnsiFormat.rgb', 'AnsiFormat.color256',
                                           '_AnsiControlFn.fn'], s1_items, s1_task, bounds='none: all integers'))
+
+
+# ============================================================================================= S2-S5: spellings of settings (C14)
+CL_SAME = [Clause('same-settings-as-the-reference-spelling', 'post_scrub_same_as_reference')]
+RAISES_S = {'ValueError': None, 'TypeError': None}
+
+
+def _member_keys(envr):
+    return list(envr.program.enum_native['AnsiFormat'].__members__.keys())
+
+
+def s3_items(tier):
+    # the member names are read from the class under test when the task runs; items are index ranges
+    return [[lo, lo + 50] for lo in range(0, 850, 50)]
+
+
+def s3_task(envr, item):
+    lo, hi = item
+    I = envr.interp
+    fmt = envr.program.enum_native['AnsiFormat']
+
+    def body(c):
+        keys = _member_keys(envr)[lo:hi]
+        c.in_spec += 1
+        for k in keys:
+            member = fmt[k]
+            expected = sym.PList([str(s) for s in member.ansi_settings])
+            variants = [k, k.lower(), k.lower().replace('_', ' '), k.title().replace('_', '-'), I.lift_enum(member)]
+            codes = ';'.join(str(s) for s in member.ansi_settings)
+            if all(ch.isdigit() or ch == ';' for ch in codes):
+                variants.append(codes)                                   # ';'-separated codes as one string
+                variants.append(sym.PList(['[' + str(s) for s in member.ansi_settings]))   # verbatim after '['
+                ints = [int(x) for x in codes.split(';')]
+                variants.append(sym.PList(ints))                         # as integers
+                variants.append((sym.PList(ints),))                      # nested (a group is never split across levels)
+            for v in variants:
+                try:
+                    res = I.call_name('_AnsiSettingPoint._scrub_ansi_settings', v)
+                except sym.PyExc as e:
+                    c.fail('spelling-accepted:%s' % k, 'raised %r for %r' % (e, v))
+                    continue
+                got = I.call_name('texts', res)
+                c.prove('same-settings:%s' % k, I.truth(I.bm.v_eq(I, got, expected)), detail=repr(v)[:60])
+                for s in res.items:
+                    c.prove('parsable:%s' % k, I.truth(I.call_name('parsable_spec', I.bm.to_str(I, s))))
+        c.in_spec -= 1
+    return ContractRun(body, [], replayable=False)
+
+
+GROUPS.append(Group('S3', 'every AnsiFormat member: its name in any letter case with spaces or hyphens, the member itself, its codes as '
+                    'string / verbatim / ints / nested give the same settings, all valid and parsable', ['C14', 'C15'], 'U',
+                    ['_AnsiSettingPoint._scrub_ansi_settings', '_AnsiSettingPoint._scrub_ansi_format_string', 'AnsiFormat.__init__',
+                     'parse_graphic_sequence'], s3_items, s3_task,
+                    bounds='none (finite: all ~800 names of AnsiFormat.__members__ x 5-9 spellings, exhaustive)'))
+
+
+def s4_items(tier):
+    K = 4 if tier == 'quick' else 5
+    out = []
+    for k in range(1, K + 1):
+        for nest in range(0, 4):
+            out.append([k, nest])
+    out.append([4, 'group-nested'])
+    return out
+
+
+def s4_task(envr, item):
+    k, nest = item
+    I = envr.interp
+
+    def body(c):
+        vals = [c.named_int('v%d' % i, 0, 255) for i in range(k)]
+        if nest in (1, 2):
+            # nesting must not cut through an extended-colour group: no introducer among the codes of these two forms
+            for v in vals:
+                c.assume(b_and(i_cmp('!=', v, 38), i_cmp('!=', v, 48), i_cmp('!=', v, 58)))
+        flat = sym.PList(list(vals))
+        ref = I.call_name('_AnsiSettingPoint._scrub_ansi_settings', flat)
+        expected = I.call_name('texts', ref)
+        if nest == 0:
+            arg = tuple(vals)
+        elif nest == 1:
+            arg = sym.PList([vals[0], sym.PList(list(vals[1:]))]) if k > 1 else sym.PList([sym.PList([vals[0]])])
+        elif nest == 2:
+            arg = (sym.PList(list(vals[:-1])), (vals[-1],)) if k > 1 else ((vals[0],),)
+        elif nest == 'group-nested':
+            # [v0, [intro, 5, n]] is the same as [v0, intro, 5, n]
+            intro = [38, 48, 58][c.choice(3)]
+            c.assume(b_and(i_cmp('!=', vals[0], 38), i_cmp('!=', vals[0], 48), i_cmp('!=', vals[0], 58)))
+            flat = sym.PList([vals[0], intro, 5, vals[3]])
+            ref = I.call_name('_AnsiSettingPoint._scrub_ansi_settings', flat)
+            expected = I.call_name('texts', ref)
+            arg = sym.PList([vals[0], sym.PList([intro, 5, vals[3]])])
+        else:
+            atoms = []
+            for i, v in enumerate(vals):
+                if i:
+                    atoms.append(('lit', ';'))
+                atoms.append(('istr', v))
+            arg = sym.mk_rope(atoms)
+            arg = sym.expand_istr(arg)
+        run_contract(envr, c, '_AnsiSettingPoint._scrub_ansi_settings', None, [arg], {}, CL_SAME, fields={'expected': expected},
+                     raises=RAISES_S, frame=('settings',))
+    return ContractRun(body, CL_SAME, raises=RAISES_S, frame=('settings',), use=('K1',))
+
+
+GROUPS.append(Group('S4', 'nested lists / tuples and ";"-separated strings of integer codes flatten to the settings of the flat list '
+                    '(adjacent integers grouped into extended-colour groups)', ['C14'], 'B',
+                    ['_AnsiSettingPoint._scrub_ansi_settings', '_AnsiSettingPoint._scrub_ansi_format_string',
+                     '_AnsiSettingPoint._scrub_ansi_format_int', 'parse_graphic_sequence'], s4_items, s4_task,
+                    bounds='1-4/5 integer codes with symbolic values 0..255; three nestings and the string form', assumes=['J1']))
+
+S5_PREFIXES = ('', 'fg_', 'bg_', 'ul_', 'dul_')
+
+
+def s5_items(tier):
+    out = []
+    for pre in S5_PREFIXES:
+        for form in ('rgb3', 'rgb3sp', 'rgb3br', 'rgb1', 'rgb1hex', 'c256', 'c256hex', 'colour256'):
+            out.append([pre, form])
+    for bad in ('rgb(', 'rgb()', 'rgb(1,2)', 'rgb(1,2,3', 'rgb(1,,3)', 'rgb(0x,1,2)', 'color256()', 'colr256(1)', 'rgb(1;2;3)',
+                'xg_rgb(1,2,3)', 'rgb(1,2,3,4)'):
+        out.append(['bad', bad])
+    return out
+
+
+def _digits(c, name, n, hexa=False):
+    cps = []
+    for i in range(n):
+        cp = c.named_int('%s%d' % (name, i))
+        if hexa:
+            c.assume(b_or(b_and(i_cmp('>=', cp, 48), i_cmp('<=', cp, 57)), b_and(i_cmp('>=', cp, 97), i_cmp('<=', cp, 102)),
+                          b_and(i_cmp('>=', cp, 65), i_cmp('<=', cp, 70))))
+        else:
+            c.assume(b_and(i_cmp('>=', cp, 48), i_cmp('<=', cp, 57)))
+        cps.append(cp)
+    return cps
+
+
+def _value(c, cps, base):
+    I = sym  # noqa
+    v = 0
+    for cp in cps:
+        if base == 10:
+            d = sym.i_sub(cp, 48)
+        else:
+            d = sym.atom(__import__('z3').If(sym.Z(cp) <= 57, sym.Z(cp) - 48, __import__('z3').If(sym.Z(cp) <= 70, sym.Z(cp) - 55, sym.Z(cp) - 87)))
+        v = sym.i_add(sym.i_mul(v, base), d)
+    return v
+
+
+def s5_task(envr, item):
+    pre, form = item
+    I = envr.interp
+
+    def body(c):
+        if pre == 'bad':
+            run_contract(envr, c, '_AnsiSettingPoint._parse_rgb_string', None, [form], {}, CL_RGBS, fields={'expected': None},
+                         raises={'ValueError': None})
+            return
+
+        def chars(s):
+            return [ord(ch) for ch in s]
+        if form.startswith('rgb3'):
+            ds = [_digits(c, x, 1 + c.choice(3)) for x in 'rgb']
+            sp = chars(' ') if form == 'rgb3sp' else []
+            ob, cb = (chars('['), chars(']')) if form == 'rgb3br' else ([], [])
+            cps = chars(pre + 'rgb(') + ob + sp + ds[0] + sp + chars(',') + sp + ds[1] + chars(',') + ds[2] + sp + cb + chars(')')
+            vals = [_value(c, d, 10) for d in ds]
+            c.in_spec += 1
+            expected = I.call_name('rgb_expected', pre, *vals)
+            c.in_spec -= 1
+        elif form in ('rgb1', 'rgb1hex'):
+            hexa = form.endswith('hex')
+            d = _digits(c, 'x', 1 + c.choice(6 if hexa else 3), hexa)
+            cps = chars(pre + 'rgb(') + (chars('0x') if hexa else []) + d + chars(')')
+            c.in_spec += 1
+            expected = I.call_name('rgb24_expected', pre, _value(c, d, 16 if hexa else 10))
+            c.in_spec -= 1
+        else:
+            hexa = form.endswith('hex')
+            d = _digits(c, 'n', 1 + c.choice(2 if hexa else 3), hexa)
+            word = 'colour256(' if form == 'colour256' else 'color256('
+            cps = chars(pre + word) + (chars('0x') if hexa else []) + d + chars(')')
+            c.in_spec += 1
+            expected = I.call_name('c256_expected', pre, _value(c, d, 16 if hexa else 10))
+            c.in_spec -= 1
+        s = sym.s_from_chars(cps)
+        run_contract(envr, c, '_AnsiSettingPoint._parse_rgb_string', None, [s], {}, CL_RGBS, fields={'expected': expected},
+                     raises={'ValueError': None})
+    return ContractRun(body, CL_RGBS, raises={'ValueError': None})
+
+
+CL_RGBS = [Clause('string-directive-gives-the-helper-settings', 'post_parse_rgb_string')]
+GROUPS.append(Group('S5', "string directives 'rgb(r,g,b)', 'rgb(0xRRGGBB)', '[fg_|bg_|ul_|dul_]colo[u]r256(n)' give the settings of the "
+                    'helper calls; malformed ones are rejected', ['C14'], 'B', ['_AnsiSettingPoint._parse_rgb_string',
+                                                                              'AnsiFormat.rgb', 'AnsiFormat.color256'],
+                    s5_items, s5_task, bounds='templates with 1-3 symbolic decimal digits (1-6 hex digits) per value, optional '
+                    'blanks / brackets, all five prefixes, color/colour; a list of malformed strings', assumes=['S1']))
